@@ -825,6 +825,21 @@ def w2_freelist(ctx, rep):
     return n
 
 
+def w5(ctx, rep):
+    """the value files change size at one place only: the growth helper of the allocator (and the creation of an empty store).
+    A second resize site - e.g. one that gives space back - could cut off pages the previous state still references before the
+    switch-over."""
+    fns = {}
+    for e in ctx.events:
+        if e.kind == "resize" and e.cls in ("ln", "bbn", "lnbbn"):
+            root = e.body.id.split("::{closure")[0]
+            if root.startswith("nomt::beatree::create") or root == "nomt::beatree::create":
+                continue
+            fns.setdefault(root, []).append(e.site)
+    rep.check(len(fns) == 1, "W5", "beatree", "single-resize-site", "the value files (ln / bbn) are resized in %d functions (%s); only the allocator's growth helper may change their length during a sync" % (len(fns), ", ".join(sorted(short(f) for f in fns))), site=";".join(sorted(s for v in fns.values() for s in v))[:200], detail="resize(ln/bbn) only in %s" % ", ".join(sorted(short(f) for f in fns)))
+    return 1
+
+
 def w3(ctx, rep):
     """free-list mutators (&mut FreeList methods) are callable only from SyncFinisher::finish and FreeList itself"""
     FL = "nomt::beatree::allocator::free_list::FreeList"
